@@ -1,5 +1,5 @@
 (* ConvertProofs.v — C16: the conversion statements as compositions through canonical content. *)
-From Cassis Require Import Base Heap Schema Canon Reach JsonDoc Json JsonProofs Convert.
+From Cassis Require Import Base Heap Schema Canon Reach JsonDoc Json JsonProofs JsonProofs2 JsonLoadProofs Convert.
 From Cassis Require Lex Xmi XmiDoc XmiProofs.
 Open Scope Z_scope.
 
@@ -12,20 +12,24 @@ Definition inline_outline_at (s : schema) (c : cas) : Prop :=
 (* XMI -> CAS -> JSON -> CAS.  c1 is the CAS loaded first (from any XMI document), j the JSON document written from it,
    c1' the same CAS with the ids the save assigned.  What the JSON reader builds from j, seen in the XMI view, is the
    XMI view of c1': views, sofa data, feature structures, ids, values, reference structure, offsets, membership. *)
-Theorem xmi_json_xmi L s mode c1 j c1' :
+Theorem xmi_json_xmi L s mode c1 j c1' cc :
   lex_ok L -> save_json L s mode c1 = Ok (j, c1') -> wf_jsonb s c1' = true -> 0 < c_next_id c1 ->
-  load_json L s j = denote_json L s j ->            (* reader = denotation on j (C05; evaluated per case) *)
+  doc_ok_json L s j = true ->                       (* the document is well-formed (a boolean on j alone) *)
+  initial_view_in c1' = true -> canon_json s c1' = Ok cc ->
   inline_outline_at s c1' ->
   (do x <- load_json L s j ;; inline_of s x) = Xmi.canon_xmi s c1'.
 Proof.
-  intros HL HS HW HT HR HI. rewrite (json_roundtrip_given_reader L s mode c1 j c1' HL HS HW HT HR). exact HI.
+  intros HL HS HW HT HD HV HC HI. rewrite (json_roundtrip L s mode c1 j c1' cc HL HS HW HT HD HV HC).
+  unfold inline_outline_at in HI. rewrite HC in HI. exact HI.
 Qed.
 
-(* the JSON leg alone, in the JSON view (stronger: collections keep their ids) *)
-Theorem json_leg_preserves L s mode c1 j c1' :
+(* the JSON leg alone, in the JSON view (stronger: collections keep their ids); the reader is no longer assumed to agree
+   with the denotation — that is JsonLoadProofs.load_json_is_denotation *)
+Theorem json_leg_preserves L s mode c1 j c1' cc :
   lex_ok L -> save_json L s mode c1 = Ok (j, c1') -> wf_jsonb s c1' = true -> 0 < c_next_id c1 ->
-  load_json L s j = denote_json L s j -> load_json L s j = canon_json s c1'.
-Proof. exact (json_roundtrip_given_reader L s mode c1 j c1'). Qed.
+  doc_ok_json L s j = true -> initial_view_in c1' = true -> canon_json s c1' = Ok cc ->
+  load_json L s j = canon_json s c1'.
+Proof. intros HL HS HW HT HD HV HC. rewrite HC. exact (json_roundtrip L s mode c1 j c1' cc HL HS HW HT HD HV HC). Qed.
 
 (* JSON -> CAS -> XMI -> CAS.  c1 is the CAS loaded first (its JSON view is what the JSON document j0 denotes), x the XMI
    document written from it.  Read by the XMI denotation, x describes the XMI view of what j0 says, up to ""/null inside
